@@ -277,8 +277,8 @@ MUST_FAIL = ("hash-bit", "root-bit", "drop-hash", "dup-hash", "extra-hash", "swa
 
 
 def gen_spv_tamper(tier, seed):
-    top = 8 if tier == "quick" else 11
-    hi_bit = 22 if tier == "quick" else 26
+    top = 7 if tier == "quick" else 11
+    hi_bit = 20 if tier == "quick" else 26
     cases = []
     for n in range(1, top + 1):
         for mask in range(1 << n):
@@ -524,18 +524,23 @@ def run_compact(case):
     vc = {"engine": "compact", "case": case}
     viol = {}  # fingerprint -> [count, observed, expected, what]
 
-    def bad(fp, obs, exp, what):
+    def bad(fp, mk):
         v = viol.get(fp)
         if v is None:
-            viol[fp] = [1, obs, exp, what]
+            viol[fp] = [1, *mk()]
         else:
             v[0] += 1
 
+    T2B_FP = {k: f"C17/compact/target_to_bits/{k}" for k in ("zero", "target<2^16", "regular")}
+
     def check_t2b(t):
         want = le4(R.get_compact(t))
-        got = attempt(target_to_bits, t)
+        try:
+            got = target_to_bits(t)
+        except Exception as ex:  # noqa
+            got = Rejected(type(ex).__name__)
         if got != want:
-            bad(f"C17/compact/target_to_bits/{target_class(t)}", {"target": hex(t), "bits": got}, want, "target_to_bits differs from GetCompact (4 bytes, little endian)")
+            bad(T2B_FP[target_class(t)], lambda: ({"target": hex(t), "bits": got}, want, "target_to_bits differs from GetCompact (4 bytes, little endian)"))
             return False
         return True
 
@@ -560,6 +565,8 @@ def run_compact(case):
         else:
             mants = structured_mantissas()
         n_b2t = n_t2b = n_over = n_neg_ok = 0
+        full = case["kind"] == "full"
+        B2T_FP = ["C17/compact/bits_to_target/exp<3", "C17/compact/bits_to_target/sign-bit", "C17/compact/bits_to_target/regular"]
         pack = struct.pack
         ebase = e << 24
         for m in mants:
@@ -577,21 +584,26 @@ def run_compact(case):
                 if isinstance(got, Rejected) or (type(got) is int and got in (v, -v)):
                     n_neg_ok += 1
                 else:
-                    bad("C17/compact/bits_to_target/sign-bit", {"bits": hex(c), "target": got if isinstance(got, float) else hex(got) if isinstance(got, int) else repr(got)}, {"magnitude": hex(v), "negative": True}, "bit 23 of the compact value is the sign, not part of the mantissa")
+                    bad(
+                        "C17/compact/bits_to_target/sign-bit",
+                        lambda: ({"bits": hex(c), "target": got if isinstance(got, float) else hex(got) if isinstance(got, int) else repr(got)}, {"magnitude": hex(v), "negative": True}, "bit 23 of the compact value is the sign, not part of the mantissa"),
+                    )
                 continue
             if type(got) is not int or got != v:
                 bad(
-                    f"C17/compact/bits_to_target/{bits_class(c)}",
-                    {"bits": hex(c), "target": repr(got) if not isinstance(got, int) or isinstance(got, bool) else hex(got)},
-                    hex(v),
-                    "bits_to_target differs from SetCompact (must be the integer mantissa shifted by 8*(exponent-3), right shift below 3)",
+                    B2T_FP[0 if e < 3 else 1 if m & 0x800000 else 2],
+                    lambda: (
+                        {"bits": hex(c), "target": repr(got) if not isinstance(got, int) or isinstance(got, bool) else hex(got)},
+                        hex(v),
+                        "bits_to_target differs from SetCompact (must be the integer mantissa shifted by 8*(exponent-3), right shift below 3)",
+                    ),
                 )
             else:
                 n_b2t += 1
             # reverse direction on the consensus target and on a full-precision neighbour
             if check_t2b(v):
                 n_t2b += 1
-            if e > 3 and m:
+            if e > 3 and m and (not full or (m & 0xFF) in (0x00, 0x80, 0xFF)):
                 t2 = v | ((1 << (8 * (e - 3))) - 1)
                 if t2 <= U256 and check_t2b(t2):
                     n_t2b += 1
@@ -921,8 +933,8 @@ def engines(tier, seed):
             gen_spv_tamper,
             run_spv_tamper,
             kind="E1",
-            rule="every proof of every tree with 1..8 (thorough 1..11) leaves x all match subsets x {every single bit of every hash, of the header root, of every flag byte, "
-            "bits 0..16 of the transaction count (bits 17..22 quick / 17..26 thorough only for trees <= 4 leaves: memory), count set to 0/n-1/n+1/2n/2n+1/ceil(n/2), flag bytes dropped/appended, "
+            rule="every proof of every tree with 1..7 (thorough 1..11) leaves x all match subsets x {every single bit of every hash, of the header root, of every flag byte, "
+            "bits 0..16 of the transaction count (bits 17..20 quick / 17..26 thorough only for trees <= 4 leaves: memory), count set to 0/n-1/n+1/2n/2n+1/ceil(n/2), flag bytes dropped/appended, "
             "each hash dropped, duplicated, swapped with its neighbour, a foreign hash prepended/appended}. Oracle: is_valid() True => every proved id is a block id; "
             "for altered hash lists / root additionally is_valid() must not be True. Non-trivial = each (proof, alteration)",
         ),
@@ -958,6 +970,7 @@ def engines(tier, seed):
             with_tier(gen_retarget),
             run_retarget,
             kind="E1",
+            chunk=40,
             rule="previous bits: exponents 1..0x21 x 9 mantissas x time differentials {-2^31,-TS,-1,0,1,TS/2,2TS,8TS,2^31-1,2^32, first mainnet retarget} U [c-3,c+3] (thorough [c-48,c+48]) "
             "for c in {TS/4, TS, 4TS}: calculate_new_bits == CalculateNextWorkRequired(mainnet limit). Skipped: previous bits that cannot occur in a valid mainnet block, "
             "and inputs/outputs on which the library's own conversions already disagree with the reference (reported by engine compact)",
@@ -967,6 +980,7 @@ def engines(tier, seed):
             gen_chain,
             run_chain,
             kind="E2",
+            chunk=100,
             rule="all header chains of length 0..3 (thorough 0..4) over per-header alphabets pow in {good, bad at regtest bits, bad at mainnet bits} x link in {ok, one bit flipped, zero, "
             "grandparent, predecessor's merkle root} (first header: prev zero/filler), mined by the harness at bits 0x207fffff, sent through HeadersMessage.parse: is_valid() == "
             "(every header satisfies its proof of work and names its predecessor's hash). states/transitions = headers consumed. Non-trivial = chains of >= 2 headers",
